@@ -528,3 +528,4 @@ TECHNIQUE = "exhaustive enumeration + Hypothesis round-trip/differential testing
 #: thorough tier: seed-dependent tasks are repeated under this many derived seeds (run.py); the listed task functions enumerate fixed domains
 THOROUGH_REPS = 3
 DETERMINISTIC_FNS = ('t_groups', 't_ints', 't_padding', 't_reject')
+RULE += " decode_int64 of any 11-character text over the alphabet is a 64-bit integer or is refused."
